@@ -393,6 +393,21 @@ class EmptyDirWarning(UserWarning):
     """Warning used by Cache.check for empty directories."""
 
 
+def _queue_keys(prefix):
+    """Return SQL condition selecting only keys of the queue `prefix`.
+
+    The key range of a prefix also contains keys that merely start with
+    "prefix-" and a digit, such as the keys of the queue "prefix-5".
+
+    """
+    if prefix is None:
+        return ''
+    return " AND length(key) = %d AND substr(key, %d) NOT GLOB '*[^0-9]*'" % (
+        len(prefix) + 16,
+        len(prefix) + 2,
+    )
+
+
 def args_to_key(base, args, kwargs, typed, ignore):
     """Create cache key out of function arguments.
 
@@ -1478,9 +1493,9 @@ class Cache:
         order = {'back': 'DESC', 'front': 'ASC'}
         select = (
             'SELECT key FROM Cache'
-            ' WHERE ? < key AND key < ? AND raw = ?'
+            ' WHERE ? < key AND key < ? AND raw = ?%s'
             ' ORDER BY key %s LIMIT 1'
-        ) % order[side]
+        ) % (_queue_keys(prefix), order[side])
 
         with self._transact(retry, filename) as (sql, cleanup):
             rows = sql(select, (min_key, max_key, raw)).fetchall()
@@ -1583,9 +1598,9 @@ class Cache:
         order = {'front': 'ASC', 'back': 'DESC'}
         select = (
             'SELECT rowid, key, expire_time, tag, mode, filename, value'
-            ' FROM Cache WHERE ? < key AND key < ? AND raw = 1'
+            ' FROM Cache WHERE ? < key AND key < ? AND raw = 1%s'
             ' ORDER BY key %s LIMIT 1'
-        ) % order[side]
+        ) % (_queue_keys(prefix), order[side])
 
         if expire_time and tag:
             default = default, None, None
@@ -1698,9 +1713,9 @@ class Cache:
         order = {'front': 'ASC', 'back': 'DESC'}
         select = (
             'SELECT rowid, key, expire_time, tag, mode, filename, value'
-            ' FROM Cache WHERE ? < key AND key < ? AND raw = 1'
+            ' FROM Cache WHERE ? < key AND key < ? AND raw = 1%s'
             ' ORDER BY key %s LIMIT 1'
-        ) % order[side]
+        ) % (_queue_keys(prefix), order[side])
 
         if expire_time and tag:
             default = default, None, None
